@@ -8,6 +8,7 @@ CALLS = []            # [(tag, value)]
 FAIL_ON = {}          # tag -> set of call numbers (1-based) or 'all'
 FAIL_CALLS = {}       # tag -> number of calls so far
 RAISED = [0]          # number of injected faults raised so far
+FAIL_EXC = [None]     # exception class to raise (None: InjectedFault)
 
 
 class InjectedFault(Exception):
@@ -19,6 +20,7 @@ def reset():
     FAIL_ON.clear()
     FAIL_CALLS.clear()
     RAISED[0] = 0
+    FAIL_EXC[0] = None
 
 
 def vcount(tag, x):
@@ -31,5 +33,8 @@ def vfail(tag, x):
     rule = FAIL_ON.get(tag)
     if rule == 'all' or (rule and n in rule):
         RAISED[0] += 1
+        if FAIL_EXC[0] is not None:
+            # the kind of error a buggy plugin or library function ends in
+            raise FAIL_EXC[0](f'injected {FAIL_EXC[0].__name__} {tag} call {n}')
         raise InjectedFault(f'injected fault {tag} call {n}')
     return x
